@@ -124,3 +124,40 @@ class infer_next_position:
     def ensures(raw, line_no, line_pos, result):
         return result == (line_no + cnt(raw, len(raw)),
                           line_pos + len(raw) if cnt(raw, len(raw)) == 0 else len(raw) - lastnl(raw, len(raw)))
+
+
+# ------------------------------------------------------------------ native builders (replay / bounded search)
+def _build_tf(rng, gen):
+    from sqlfluff.core.templaters.base import TemplatedFile as TF, TemplatedFileSlice, RawFileSlice
+    src = gen.value(StrA)
+    if rng.random() < 0.5:
+        return TF(source_str=src, fname="<replay>")
+    tpl = gen.value(StrA)
+    return TF(source_str=src, fname="<replay>", templated_str=tpl,
+              sliced_file=[TemplatedFileSlice("templated", slice(0, len(src)), slice(0, len(tpl)))],
+              raw_sliced=[RawFileSlice(src, "templated", 0)])
+
+
+def _tf_from_model(fields):
+    from sqlfluff.core.templaters.base import TemplatedFile as TF, TemplatedFileSlice, RawFileSlice
+    src, tpl = fields.get("source_str", ""), fields.get("templated_str", "")
+    return TF(source_str=src, fname="<replay>", templated_str=tpl,
+              sliced_file=[TemplatedFileSlice("templated", slice(0, len(src)), slice(0, len(tpl)))],
+              raw_sliced=[RawFileSlice(src, "templated", 0)])
+
+
+from pyvc import replay as _replay  # noqa: E402
+_replay.BUILDERS["TemplatedFile"] = _build_tf
+_replay.FROM_MODEL["TemplatedFile"] = _tf_from_model
+
+TRUSTED = ["z3 RecFunction unfolding of the spec functions cnt / lastnl"]
+NOT_COVERED = ["callers outside the three functions (who passes which offset) are covered under C23"]
+
+MUTANTS = [
+    ("bisect_right", "sqlfluff/core/templaters/base.py", "nl_idx = bisect_left(ref_str, char_pos)", "nl_idx = bisect_right(ref_str, char_pos)"),
+    ("col_off_by_one", "sqlfluff/core/templaters/base.py", "return nl_idx + 1, char_pos - ref_str[nl_idx - 1]", "return nl_idx + 1, char_pos - ref_str[nl_idx - 1] + 1"),
+    ("first_line_col", "sqlfluff/core/templaters/base.py", "return 1, char_pos + 1", "return 1, char_pos"),
+    ("skip_adjacent_newline", "sqlfluff/core/templaters/base.py", 'nl_pos = raw_str.find("\\n", init_idx + 1)', 'nl_pos = raw_str.find("\\n", init_idx + 2)'),
+    ("infer_last_line", "sqlfluff/core/parser/markers.py", "line_pos + len(raw) if len(split) == 1 else len(split[-1]) + 1", "line_pos + len(raw) if len(split) == 1 else len(split[-1])"),
+    ("infer_line_count", "sqlfluff/core/parser/markers.py", "line_no + len(split) - 1,", "line_no + len(split),"),
+]
